@@ -287,7 +287,34 @@ func clusterCmd(out *cq.Out, seed uint64, tier string) {
 			return evs
 		}
 		down := -1
-		for st := 0; st < steps; st++ {
+		if sc%3 == 0 {
+			// a large log first (more than 1000 events: the hyper cache table of a restarting follower spans several
+			// reader pages), then a follower restart and a check
+			for i := 0; i < 5 && !c.indet; i++ {
+				evs := mk(220 + rng.Intn(40))
+				before := len(c.acked)
+				if snaps, err := c.add(evs); err == nil {
+					c.checkDense(out, snaps[:3], evs[:3], before, desc)
+				}
+			}
+			hist = append(hist, fmt.Sprintf("large log: %d events", len(c.acked)))
+			if !c.indet {
+				l := c.leader()
+				f := (l + 1) % 3
+				c.stop(f)
+				c.add(mk(2))
+				if err := c.start(f, false); err == nil {
+					hist = append(hist, fmt.Sprintf("stop follower %d, add 2, restart it", f))
+					if c.quiesce() {
+						c.checkReplicas(out, rng, "C06", desc)
+						hist = append(hist, "check")
+					} else {
+						out.Violate("C06:no-quiescence", "after a follower restart on a large log the replicas did not converge within 20 s: "+c.versions(), desc)
+					}
+				}
+			}
+		}
+		for st := 0; st < steps && !c.indet; st++ {
 			out.Note(desc)
 			switch r := rng.Intn(10); {
 			case r < 5:
